@@ -41,11 +41,19 @@ pub struct Case {
     pub cached_ref: f64,
 }
 
+/// mass values; variants 2, 3: the same magnitudes with a NEGATIVE sign on the first massive edge and on every odd-indexed one
+/// (only m^2 enters the integral, so a signed mass eigenvalue is legitimate input)
 pub fn mass_values(g: &OGraph, variant: usize) -> Vec<Option<Q>> {
+    let first = (0..g.ne()).find(|&e| g.massive[e]);
     (0..g.ne())
         .map(|e| {
             if g.massive[e] {
-                Some(if (e + variant) % 2 == 0 { qr(1, 2) } else { qi(2) })
+                let m = if (e + variant) % 2 == 0 { qr(1, 2) } else { qi(2) };
+                if variant >= 2 && (Some(e) == first || e % 2 == 1) {
+                    Some(-m)
+                } else {
+                    Some(m)
+                }
             } else {
                 None
             }
